@@ -157,6 +157,22 @@ Definition check_C08 (ts : list N) : list N :=
       end
     | None => v_bad
     end
+  (* end-to-end rig (real binary in a network namespace, tools/rig.py):
+     kind 20: [20; klass; path; status]  HTTP GET from a client whose first matching rule grants
+              http-ro (klass 1) or does not (klass 0); path 0 "/", 1 "/metrics", 2 leases, 3 other
+     kind 21: [21; klass; got; rcode]    DNS query from a client whose first matching rule grants
+              dns-recursion (klass 1) or does not (klass 0) *)
+  | [20; klass; path; status] =>
+    if status =? 0 then v_diff [0]
+    else if (klass =? 0) && negb (status =? 403) then v_viol 7
+    else if (klass =? 1) && (status =? 403) then v_viol 7
+    else if (klass =? 1) && negb (status =? (if path =? 3 then 404 else 200)) then v_diff [if path =? 3 then 404 else 200]
+    else v_ok (70 + 4 * klass + N.min path 3)
+  | [21; klass; got; rcode] =>
+    if (klass =? 0) && (got =? 1) && negb (rcode =? 5) then v_viol 8
+    else if (klass =? 1) && (got =? 1) && (rcode =? 5) then v_viol 8
+    else if got =? 0 then v_diff [1]
+    else v_ok (80 + klass)
   | [6; impl] => if impl =? 0 then v_ok 60 else v_viol 6
   | _ => v_bad
   end.
